@@ -403,3 +403,27 @@ TRUSTED = [
 NOT_DECIDED = []
 ASSUMPTIONS = list(TRUSTED)
 MIN_OBLIGATIONS = 200
+
+
+def world_grass_unit(repo, tier, seed):
+    """The world aggregate's grass baseline must be in the unit its consumer (MeatAndDairy: million dry caloric
+    tons per month) expects: executed from source, it has to be of the order of the sum of the country rows."""
+    import csv, os, time
+    from pyvc.interp import Interp, Ctx
+    t0 = time.time()
+    I = Interp(repo)
+    ctx = Ctx(I, [])
+    I.new_path(ctx)
+    loader = I.call(I.load_function(SC, "Scenarios"), [], {})
+    consts = I.call_method(loader, "init_global_food_system_properties", [])
+    world = float(consts["HUMAN_INEDIBLE_FEED_BASELINE_MONTHLY"])
+    with open(os.path.join(repo, "data/no_food_trade/computer_readable_combined.csv"), newline="") as f:
+        countries = sum(float(r["grasses_baseline"]) for r in csv.DictReader(f)) / 12
+    ok = 0.5 * countries <= world <= 2 * countries
+    detail = f"world {world:.6g} per month vs sum of the 164 country rows {countries:.6g} per month (million dry caloric tons)"
+    return [{"name": "C08/grass/world_baseline_in_the_unit_its_consumer_expects", "kind": "ground", "status": "discharged" if ok else "failed",
+             "backend": "pyvc interpreter (concrete)", "seconds": round(time.time() - t0, 2), "detail": detail, "goal": "0.5 x sum(countries) <= world <= 2 x sum(countries)",
+             "replay_verdict": None if ok else "violation", "replay": None if ok else {"verdict": "violates-natively", "detail": detail}}]
+
+
+EXTRA = [world_grass_unit]
